@@ -7,6 +7,12 @@ Pipeline (DESIGN.md 3.5 / 4 C20):
   3. TLC (Sni_gen.cfg) prints every abstract vector of the cross product.
   4. harness bin `sni` instantiates every vector with K seeded spellings and pushes each through
      the REAL public ValidateSNI layer; one ndjson record per request.
+  4b. chain binding: TLC checks the per-connection info state machine of Sni.tla (ConnSpec: Pending/Received/Empty,
+     requests started / cancelled while waiting / handshake) and writes every maximal behaviour x scenario
+     (Sni_conngen.cfg); harness `sni chain` replays each on the REAL chain TLS acceptor -> info channel
+     (info/tls.rs) -> TlsConnectionInfoLayer's service (server/conn/tls/info.rs) -> ValidateSNI -> recording app over a
+     real in-memory TLS handshake (certificate generated with openssl under out/C20/certs); one record per request
+     of the connection, carrying the ground truth "arrived over TLS".
   5. TLC (SniObs.tla, -continue) evaluates the C20 clauses on every record. Only its rejection of
      a record produces a VIOLATION. Differences from the modelled functions that keep the clauses
      are DRIFT (stderr + evidence), exit 0.
@@ -14,12 +20,28 @@ Pipeline (DESIGN.md 3.5 / 4 C20):
 import glob
 import json
 import os
+import subprocess
 import time
 
 import vlib
 
 PID = "C20"
 SPELLINGS = {"quick": 6, "thorough": 60}
+CHAIN_REPS = {"quick": 1, "thorough": 10}
+
+
+def make_cert(pid):
+    """A throw-away self-signed server certificate (the client of the chain binding accepts any certificate)."""
+    d = os.path.join(vlib.outdir(pid), "certs")
+    os.makedirs(d, exist_ok=True)
+    p = subprocess.run(["openssl", "req", "-x509", "-newkey", "ec", "-pkeyopt", "ec_paramgen_curve:P-256", "-nodes",
+                        "-keyout", os.path.join(d, "key.pem"), "-out", os.path.join(d, "cert.pem"), "-days", "30",
+                        "-subj", "/CN=verif C20", "-addext", "subjectAltName=DNS:example.com"],
+                       stdout=subprocess.PIPE, stderr=subprocess.STDOUT, text=True, timeout=120)
+    if p.returncode != 0 or not os.path.exists(os.path.join(d, "cert.pem")):
+        vlib.log(p.stdout[-2000:])
+        raise vlib.ToolError("openssl could not generate the test certificate")
+    return d
 
 
 def _obs(pid, records_path, timeout=1500):
@@ -42,6 +64,13 @@ def _key(k):
 
 def _describe(rec, k):
     c, o = rec["c"], rec["o"]
+    if c.get("mode") == "chain":
+        return ("clause %s fails on request #%d of a TLS connection (SNI %s) after the events %s "
+                "(S=request started, D=suspended request future dropped, H=handshake completed): HTTP/%s uri=%s Host=%s "
+                "-> %s%s, application saw TLS info: %s%s" % (
+                    k["clause"], c["pos"], repr(c["sni"]) if c["has_sni"] else "<none sent>", c["beh"], c["ver"], c["uri"],
+                    repr(c["host"]) if c["has_host"] else "<absent>", o["kind"], " validated" if o["validated"] else "",
+                    o["saw_tls"], (" (" + o["err"] + ")") if o["err"] else ""))
     return ("clause %s fails: HTTP/%s request uri=%s Host=%s over TLS with SNI=%s -> %s%s%s" % (
         k["clause"], c["ver"], c["uri"], repr(c["host"]) if c["has_host"] else "<absent>",
         repr(c["sni"]) if c["has_sni"] else "<absent>", o["kind"],
@@ -69,18 +98,49 @@ def run(pid, tier, seed, t0):
         raise vlib.ToolError("Sni_gen produced no vectors")
     vpath = os.path.join(d, "vectors.ndjson")
     vlib.write_ndjson(vpath, vecs)
-    # 4. the real code
+    # 4. the real code: ValidateSNI with a hand-built TLS info extension
     rpath = os.path.join(d, "records.ndjson")
     k = SPELLINGS[tier]
     out = vlib.run_harness("sni", ["gen", vpath, rpath, seed, k], timeout=900)
-    nrec = json.loads(out.strip().splitlines()[-1])["records"]
-    if nrec != len(vecs) * k:
-        raise vlib.ToolError("harness executed %d of %d requests" % (nrec, len(vecs) * k))
+    ndirect = json.loads(out.strip().splitlines()[-1])["records"]
+    if ndirect != len(vecs) * k:
+        raise vlib.ToolError("harness executed %d of %d requests" % (ndirect, len(vecs) * k))
+    # 4b. the real chain acceptor -> info channel -> TlsConnectionInfoLayer -> ValidateSNI
+    cm = vlib.tlc("MC_Sni", "Sni_conn.cfg", pid, workers=4, timeout=600, coverage=True)
+    if not cm.finished or cm.violated:
+        vlib.log(cm.out[-3000:])
+        raise vlib.ToolError("Sni.tla ConnSpec: the connection machine violates its invariants (spec error)")
+    ccov = cm.coverage()
+    taken = vlib.tlc("MC_Sni", "Sni_conn_taken.cfg", pid, workers=1, timeout=600, extra=["-continue"])
+    refuted_states = len(taken.printed("CONNBAD"))
+    cpath = os.path.join(d, "chain.ndjson")
+    if os.path.exists(cpath):
+        os.remove(cpath)
+    cg = vlib.tlc("MC_Sni", "Sni_conngen.cfg", pid, workers=1, timeout=600, env={"GEN_OUT": cpath})
+    gl = [l for l in cg.out.splitlines() if l.startswith('<<"CHAINGEN"')]
+    if not cg.finished or not gl or not os.path.exists(cpath):
+        vlib.log(cg.out[-3000:])
+        raise vlib.ToolError("Sni_conngen produced no scenarios")
+    n_beh, n_scn = [int(x) for x in gl[0].strip("<>").split(",")[1:]]
+    certs = make_cert(pid)
+    crpath = os.path.join(d, "chain-records.ndjson")
+    reps = CHAIN_REPS[tier]
+    out = vlib.run_harness("sni", ["chain", cpath, crpath, seed, reps], timeout=900, env={"C20_CERTS": certs})
+    cj = json.loads(out.strip().splitlines()[-1])
+    if cj["connections"] != n_beh * n_scn * reps:
+        raise vlib.ToolError("harness replayed %d of %d connection scenarios" % (cj["connections"], n_beh * n_scn * reps))
+    nchain = cj["records"]
+    with open(rpath, "a") as f, open(crpath) as g2:
+        for line in g2:
+            f.write(line)
+    nrec = ndirect + nchain
     recs = vlib.read_ndjson(rpath)
     # 5. the monitor
     o, bad, diffi, diffa = _obs(pid, rpath)
     if o.distinct != nrec:
         raise vlib.ToolError("SniObs consumed %d of %d records" % (o.distinct, nrec))
+    diffc = o.printed("DIFFC")
+    judged_chain = sum(1 for r in recs[ndirect:] if r["o"]["kind"] != "dropped")
 
     verdict = vlib.Verdict(pid)
     by_key = {}
@@ -94,29 +154,35 @@ def run(pid, tier, seed, t0):
     bad_idx = {b["i"] for b in bad}
     drift_idx = sorted({x["i"] for x in diffi} - bad_idx)
     observed_bad_classes = {"/".join(recs[i - 1]["v"][f] for f in ("ver", "hosthdr", "auth", "sni")) for i in bad_idx}
-    drift = {"records_differing_from_intended_without_violation": len(drift_idx),
+    drift = {"chain_records_not_matching_the_connection_model": len(diffc),
+             "records_differing_from_intended_without_violation": len(drift_idx),
              "records_differing_from_asbuilt_transcription": len(diffa),
              "examples": [recs[i - 1] for i in drift_idx[:3]],
              "asbuilt_predicted_violating_classes": len(predicted),
              "observed_violating_classes": len(observed_bad_classes),
              "prediction_matches_observation": predicted == observed_bad_classes}
+    if diffc:
+        vlib.log("DRIFT property=%s: %d chain records do not match the status/timing the connection model expects, e.g. %s"
+                 % (pid, len(diffc), json.dumps({k2: v2 for k2, v2 in recs[diffc[0]["i"] - 1]["c"].items()
+                                                 if k2 != "chain_json"})[:500]))
     if drift_idx:
         vlib.log("DRIFT property=%s: %d records differ from the modelled decision function without breaking a clause, e.g. %s"
                  % (pid, len(drift_idx), json.dumps(recs[drift_idx[0] - 1])[:500]))
-    vlib.log("[C20] as-built transcription of the pinned sni.rs: predicts %d violating classes, real code shows %d (%s); "
-             "%d records differ from that transcription" % (len(predicted), len(observed_bad_classes),
-             "same set" if predicted == observed_bad_classes else "different set", len(diffa)))
+    vlib.log("[C20] transcription of the ORIGINAL (pre-88bb6a9) sni.rs: predicts %d violating classes; this tree shows %d; "
+             "%d records differ from that transcription" % (len(predicted), len(observed_bad_classes), len(diffa)))
     code, unlisted = verdict.finish()
 
     subject = sum(1 for v in vecs if v["subject"])
-    distinct_req = len({json.dumps(r["c"], sort_keys=True) for r in recs})
-    samples = [recs[0], recs[len(recs) // 2], recs[-1]]
+    distinct_req = len({json.dumps(r["c"], sort_keys=True) for r in recs[:ndirect]})
+    def slim(r):
+        return {"i": r["i"], "v": r["v"], "c": {k2: v2 for k2, v2 in r["c"].items() if k2 != "chain_json"}, "o": r["o"]}
+    samples = [recs[0], recs[ndirect // 2], slim(recs[ndirect + nchain // 3]), slim(recs[-1])]
     if bad:
-        samples.append(recs[bad[0]["i"] - 1])
+        samples.append(slim(recs[bad[0]["i"] - 1]))
     vlib.write_evidence(
         pid, tier, seed, "model_checking",
         {
-            "states": m.distinct, "transitions": m.generated - len(vecs),
+            "states": m.distinct + cm.distinct, "transitions": (m.generated - len(vecs)) + (cm.generated - n_scn),
             "traces_validated_against_impl": nrec,
             "samples": samples,
             "evaluations": nrec,
@@ -125,12 +191,22 @@ def run(pid, tier, seed, t0):
                     "SNI{4 forms} x TLS info{present,absent} = %d abstract vectors; each is instantiated with %d seeded "
                     "spellings (names, letter case, ports, IPv4/IPv6 literals, paths) and executed on the real ValidateSNI "
                     "layer; distinct_nontrivial counts the abstract vectors the property text constrains (TLS info present "
-                    "and a host named); %d distinct concrete requests were executed" % (len(vecs), k, distinct_req),
+                    "and a host named); %d distinct concrete requests were executed. Chain binding: TLC enumerates the %d maximal "
+                    "behaviours of the connection machine (requests started in order, suspended request futures dropped, "
+                    "handshake completing at any point) x %d scenarios (version{1.1,2} x SNI{sent,not sent} x host class "
+                    "{match,differ,absent}^3) = %d connections x %d seeded spelling(s), each replayed over a real in-memory TLS "
+                    "handshake through acceptor -> info channel -> TlsConnectionInfoLayer -> ValidateSNI: %d request records, "
+                    "%d of them completed (judged)" % (len(vecs), k, distinct_req, n_beh, n_scn, n_beh * n_scn, reps,
+                                                        nchain, judged_chain),
             "exhaustive": True,
             "abstract_vectors": len(vecs), "vectors_constrained_by_text": subject,
+            "vector_model_states": m.distinct, "connection_model_states": cm.distinct,
+            "connection_behaviours": n_beh, "connection_scenarios": n_scn, "connections_replayed": cj["connections"],
+            "chain_request_records": nchain, "chain_requests_judged": judged_chain,
+            "refuted_variant_taken_receiver_violating_states": refuted_states,
             "distinct_concrete_requests": distinct_req,
             "monitor_states": o.distinct,
-            "tlc_coverage": {a: list(c) for a, c in cov.items()},
+            "tlc_coverage": dict({a: list(c) for a, c in cov.items()}, **{a: list(c) for a, c in ccov.items()}),
             "actions_never_taken": never,
             "violating_records": len(bad), "violation_classes": len(by_key),
             "drift": drift,
@@ -139,12 +215,19 @@ def run(pid, tier, seed, t0):
         ["the harness instantiates an abstract host form with the concrete spelling it names (checked by reading; "
          "letter-case variants are produced by flipping ASCII case, 'other' names are near misses of the name)",
          "TLS connection info is constructed through the public fields of hyperdriver::info::TlsConnectionInfo, as the TLS "
-         "acceptor's info layer would insert it; no real TLS handshake is involved",
+         "acceptor's info layer would insert it (direct binding); the chain binding obtains it from a real rustls handshake "
+         "(tokio-rustls client accepting any certificate, SNI = the scenario's name, or none for an IP address) through the "
+         "crate's TLS acceptor, info channel and TlsConnectionInfoLayer",
+         "chain binding: a request is 'arrived over TLS' because the harness made the connection a TLS connection; request "
+         "futures are polled by hand, one settle round after every event",
          "syntactically valid host values only (the property's quantifier)",
          "TLC and the CommunityModules Json reader are trusted"],
         time.time() - t0, unlisted)
-    vlib.log("[C20] %d abstract vectors x %d spellings = %d requests on the real layer; %d violating records in %d classes; "
-             "model %d states" % (len(vecs), k, nrec, len(bad), len(by_key), m.distinct))
+    vlib.log("[C20] %d abstract vectors x %d spellings = %d requests on the real layer + %d connections (%d behaviours x %d "
+             "scenarios x %d) = %d chain requests (%d judged); %d violating records in %d classes; models %d + %d states; "
+             "moved-receiver variant refuted by TLC on %d states" % (
+                 len(vecs), k, ndirect, cj["connections"], n_beh, n_scn, reps, nchain, judged_chain, len(bad), len(by_key),
+                 m.distinct, cm.distinct, refuted_states))
     return code
 
 
@@ -155,11 +238,12 @@ def replay(pid, path):
     inp = os.path.join(d, "replay-in.ndjson")
     outp = os.path.join(d, "replay-out.ndjson")
     vlib.write_ndjson(inp, recs)
-    vlib.run_harness("sni", ["rerun", inp, outp], timeout=300)
+    vlib.run_harness("sni", ["rerun", inp, outp], timeout=300, env={"C20_CERTS": make_cert(pid)})
     new = vlib.read_ndjson(outp)
     o, bad, _, _ = _obs(pid, outp, timeout=300)
     for r in new:
-        vlib.log("  replayed: %s -> %s" % (json.dumps(r["c"], sort_keys=True), json.dumps(r["o"], sort_keys=True)))
+        vlib.log("  replayed: %s -> %s" % (json.dumps({k: v for k, v in r["c"].items() if k != "chain_json"}, sort_keys=True),
+                                           json.dumps(r["o"], sort_keys=True)))
     if bad:
         rp = os.path.join(d, "replay-violation.json")
         json.dump({"property": pid, "key": _key(bad[0]["key"]), "replay": {"records": [new[b["i"] - 1] for b in bad]}},
